@@ -4,23 +4,8 @@
 From Coq Require Import NArith ZArith String Bool List.
 Import ListNotations.
 Require Import MS.Base.GoInt MS.Base.Res MS.Base.F32 MS.Base.F64 MS.Model.Uda MS.Proofs.Uda_facts MS.Corr.Common.
+Require Export MS.Corr.AggCols.
 Local Open Scope Z_scope.
-
-(** a column as the harness prints it: element type + raw values (bit patterns for floats) *)
-Inductive kcol :=
-| KF32 (l : list Z) | KF64 (l : list Z) | KI64 (l : list Z) | KI32 (l : list Z) | KInt (l : list Z)
-| KOther (n : nat) | KMissing.
-
-Definition mk_col (k : kcol) : col :=
-  match k with
-  | KF32 l => CF32 (map f32_of_bits l)
-  | KF64 l => CF64 (map f64_of_bits l)
-  | KI64 l => CI64 l
-  | KI32 l => CI32 l
-  | KInt l => CInt l
-  | KOther n => COther n
-  | KMissing => CMissing
-  end.
 
 Record case := {
   k_agg : nat;                       (* 0 count, 1 min, 2 max, 3 avg, 4 gap *)
@@ -34,13 +19,6 @@ Definition chunks_of (k : case) : list chunk := map (fun '(n, c) => (n, mk_col c
 
 Fixpoint flat3 (l : list (Z * Z * Z)) : list Z :=
   match l with [] => [] | (a, b, c) :: r => a :: b :: c :: flat3 r end.
-
-Fixpoint zlist_eqb (a b : list Z) : bool :=
-  match a, b with
-  | [], [] => true
-  | x :: a', y :: b' => Z.eqb x y && zlist_eqb a' b'
-  | _, _ => false
-  end.
 
 Definition obs_res {A} (k : case) (r : Res A) (out : A -> list Z) : bool :=
   match r with
